@@ -24,6 +24,7 @@ type SimWatcher struct {
 	conf    map[string]*confReg
 	csv     map[string]*csvReg
 	started bool
+	dirty   bool
 }
 
 type confReg struct {
@@ -75,8 +76,8 @@ func (s *SimWatcher) AddWaitForConfirmationTx(swapID, txID string, vout, startin
 		Extra: fmt.Sprintf("start=%d window=%d", startingHeight, paymentWindow), Effect: true})
 	s.mu.Lock()
 	s.conf[swapID] = &confReg{txid: txID, vout: vout, start: startingHeight, window: paymentWindow}
+	s.dirty = true
 	s.mu.Unlock()
-	go s.poll()
 }
 
 func (s *SimWatcher) AddWaitForCsvTx(swapID, txID string, vout, startingHeight, csv uint32, _ []byte) {
@@ -85,8 +86,23 @@ func (s *SimWatcher) AddWaitForCsvTx(swapID, txID string, vout, startingHeight, 
 		Extra: fmt.Sprintf("start=%d csv=%d", startingHeight, csv), Effect: true})
 	s.mu.Lock()
 	s.csv[swapID] = &csvReg{txid: txID, vout: vout, csv: csv}
+	s.dirty = true
 	s.mu.Unlock()
-	go s.poll()
+}
+
+// PollIfDirty runs the first check of new registrations.  The harness calls
+// it after the registering handler has gone quiescent (a watcher reacts to a
+// registration asynchronously; the interleavings of a callback with the
+// still-running handler are the subject of the scheduler-based checks).
+func (s *SimWatcher) PollIfDirty() bool {
+	s.mu.Lock()
+	d := s.dirty
+	s.dirty = false
+	s.mu.Unlock()
+	if d && !s.life.Dead() {
+		go s.poll()
+	}
+	return d
 }
 
 func (s *SimWatcher) poll() {
@@ -162,15 +178,15 @@ func (s *SimWatcher) poll() {
 	}
 }
 
-func (s *SimWatcher) Key(label func(class, s string) string) string {
+func (s *SimWatcher) Key() string {
 	s.mu.Lock()
 	defer s.mu.Unlock()
 	var parts []string
 	for id, r := range s.conf {
-		parts = append(parts, fmt.Sprintf("conf:%s:%s:%d", label("id", id), label("tx", r.txid), r.vout))
+		parts = append(parts, fmt.Sprintf("conf:%s:%s:%d", id, r.txid, r.vout))
 	}
 	for id, r := range s.csv {
-		parts = append(parts, fmt.Sprintf("csv:%s:%s:%d", label("id", id), label("tx", r.txid), r.vout))
+		parts = append(parts, fmt.Sprintf("csv:%s:%s:%d", id, r.txid, r.vout))
 	}
 	sort.Strings(parts)
 	return fmt.Sprintf("W%s%v", s.chain.Name, parts)
